@@ -233,4 +233,22 @@ theorem walkMid_boundary (e : Env) (s : St) (lh : Int) (dest : Nat) (prune : Boo
     rw [hcx, hx']
     exact replayChain_trefines e A s1 _ hT1
 
+theorem undoTodo_self (e : Env) (b : Nat) : undoTodo e b b = ([], []) := by
+  have hfst : (undoTodo e b b).1 = [] := by
+    rw [undoTodo_fst, ancestors_succ, List.takeWhile_cons]
+    simp
+  have hsnd : (undoTodo e b b).2 = [] := by
+    rw [undoTodo_snd, ancestors_succ, List.takeWhile_cons]
+    simp
+  exact Prod.ext hfst hsnd
+
+/-- a walk from a block-boundary state to the block it already stands on changes nothing -/
+theorem walk_self (e : Env) (x : St) (lh : Int) (prune : Bool) (hp : x.pool = []) :
+    walk e x lh x.pointer prune = (x, true) := by
+  rw [walk_eq_core_of_pool_nil e x lh x.pointer prune hp]
+  unfold walkCore
+  simp only
+  rw [rolledBack_of_pool_nil e x hp, undoTodo_self, undoAll_nil]
+  rfl
+
 end XV.Crash
